@@ -3,6 +3,7 @@ package h
 
 import (
 	"bufio"
+	"bytes"
 	"encoding/hex"
 	"encoding/json"
 	"fmt"
@@ -96,6 +97,52 @@ type Ctx struct {
 	failSeen map[string]int
 	tf       *os.File
 	tw       *bufio.Writer
+	retained map[string][]retainedOut
+}
+
+type retainedOut struct {
+	live []byte
+	copy []byte
+	desc interface{}
+}
+
+// Retain registers an output the code under test handed out (the slice itself, not a copy). Every later Retain for the same
+// site first re-reads the last few retained outputs of that site: an encoder's result is a value of its own, and a later call --
+// on the same or on another object -- that changes it (a shared, pooled or re-sliced output buffer) is reported as
+// "output-changed-by-later-call". Outputs of a site are compared only against calls of that site, so an API that documents
+// "valid until the next call" can simply not be retained.
+func (c *Ctx) Retain(site string, out []byte, desc interface{}) {
+	if len(out) == 0 {
+		return
+	}
+	c.mu.Lock()
+	if c.retained == nil {
+		c.retained = map[string][]retainedOut{}
+	}
+	ring := c.retained[site]
+	var bad *retainedOut
+	for i := range ring {
+		if !bytes.Equal(ring[i].live, ring[i].copy) {
+			r := ring[i]
+			bad = &r
+			ring[i].copy = append([]byte(nil), ring[i].live...) // report once
+		}
+	}
+	ring = append(ring, retainedOut{live: out, copy: append([]byte(nil), out...), desc: desc})
+	if len(ring) > 4 {
+		ring = ring[len(ring)-4:]
+	}
+	c.retained[site] = ring
+	c.mu.Unlock()
+	if bad != nil {
+		at := 0
+		for at < len(bad.copy) && at < len(bad.live) && bad.copy[at] == bad.live[at] {
+			at++
+		}
+		c.Fail(site, "output-changed-by-later-call", fmt.Sprintf("a %d-byte result handed out earlier changed at byte %d after a later call (was %s, now %s)",
+			len(bad.copy), at, trunc(hex.EncodeToString(bad.copy)), trunc(hex.EncodeToString(bad.live))),
+			map[string]interface{}{"earlier": bad.desc, "later": desc})
+	}
 }
 
 // Emit appends one line to the trace file named by the option trace=<path>
